@@ -364,10 +364,15 @@ func TestC29Delivery(t *testing.T) {
 			"traffic: 1-300 messages (case capped at 1500 flits), src!=dst port (also on the same device), 0-4096 bytes, 5 traffic classes, 1/3 with RspTo (earlier message's ID or arbitrary), optional hotspot destination, message IDs from the library generator started at {0,1000,2^32,2^53+7,2^63+11}. "+
 			"Oracle: every object delivered at a device port is a packetization.AssembledMsg whose MsgMeta equals a sent message's (all six fields) and whose Dst is that port, at most once per ID; "+
 			"liveness (mesh, and every topology whose switch multigraph is a tree): when the engine is idle every message was delivered and every script fully sent. "+
+			"Checkpoint leg (1 case in 5, classes 'ckpt:*'): the same network + devices (modeling.Components whose whole state - script, position, counters - is plain-JSON State) + traffic are built inside a real simulation.Simulation (connector registrar = the simulation; default registration or, 50%, without the idle DBTracer hooks), run to a cut, saved with Simulation.SaveCheckpoint and terminated; another process (re-exec of the test binary, replaced every 12 jobs) builds the same simulation again from the case, schedules nothing, LoadCheckpoint, runs until idle. "+
+			"The cut is one of the uninterrupted run's own event times (RunUntil(t) handles all events <= t): 3 in 4 drawn among the instants at which some endpoint's State.AssemblingMsgs holds a message with some but not all flits arrived (measured again at the cut in the simulation: class 'ckpt:cut-mid-reassembly'), 1 in 4 among all event times. "+
+			"The same oracle judges the device-port events before the cut followed by those after the resume (exactly once, six metadata fields, right port, nothing else; everything delivered and every script finished for mesh/tree), plus: devices retrieved exactly the delivered messages. "+
+			"Additionally (signature prefix 'ckpt-vs-uninterrupted:', C06's promise for this assembly rather than C29's): the same set of messages is delivered, every device port sees the same sequence of sends/deliveries at the same virtual times, and the engine goes idle at the same time as in the uninterrupted run. "+
 			"Non-trivial: a delivered message crossed >=2 switch-to-switch links, a multi-flit message was sent, and flits of two messages interleaved at one endpoint's network port or a sender was back-pressured")
 	defer s.End()
 	s.Assume("the engine going idle (no scheduled event) is the decision point for liveness; a case that is not idle after a virtual-time bound of 25x a pessimistic serial estimate (largest observed run length is in extra) is reported as harness failure (inconclusive), never as a verdict")
 	s.Assume("cyclic switch graphs (rings, cliques, NVLink hybrids): only the safety part is judged; undelivered messages there are counted in class 'cyclic-incomplete'")
+	s.Assume("checkpoint leg: the harness devices are checkpoint-clean (State is all they have); port hooks are re-attached in the rebuilt simulation and see nothing of what sits in a restored buffer, so a message delivered to a device port before the cut counts once (its pre-cut delivery event)")
 
 	maxRatio := 0
 	ck := newCkptLeg(t, s)
